@@ -465,7 +465,11 @@ char *FUNC(generate)(jwt_common_t *__cmd)
 		return NULL;
 	}
 
-	/* Callback may have changed this */
+	/* Callback may have changed this. A key without an explicit alg is
+	 * used with its own alg, same as without a callback. */
+	if (config.alg == JWT_ALG_NONE && config.key)
+		config.alg = config.key->alg;
+
 	if (__setkey_check(__cmd, config.alg, config.key)) {
 		jwt_write_error(__cmd, "Algorithm and key returned by callback invalid");
 		return NULL;
